@@ -68,7 +68,7 @@ def build_lib(variant="omp", extra_flags=(), tag=None):
     out = os.path.join(BUILD, name)
     if os.path.exists(out):
         return out
-    flags = ["-O2", "-fPIC", "-DTHM_EPSILON=1e-10"]
+    flags = ["-O2", "-fPIC", "-DTHM_EPSILON=1e-10", "-fno-gnu-unique"]
     if variant == "omp":
         flags.append("-fopenmp")
     flags += list(extra_flags)
